@@ -11,6 +11,7 @@ import (
 	"runtime"
 	"sort"
 	"strings"
+	"syscall"
 	"testing"
 	"time"
 
@@ -22,7 +23,15 @@ import (
 	"verif/rig/codec"
 )
 
-func TestMain(m *testing.M) { codec.Register(); ev.Main(m) }
+func TestMain(m *testing.M) {
+	// Safety net for the machine: a decoder that asks the allocator for an announced 32 GiB must kill
+	// this test process (fatal error: out of memory -> the driver re-runs the shard and reports the
+	// crash), not the box. Applies to rapid shards and fuzz workers alike.
+	lim := syscall.Rlimit{Cur: 12 << 30, Max: 12 << 30}
+	_ = syscall.Setrlimit(syscall.RLIMIT_AS, &lim)
+	codec.Register()
+	ev.Main(m)
+}
 
 const (
 	partCorrupt  = "corrupt"
@@ -51,7 +60,10 @@ func needMoreBound(n int) uint64 { return uint64(n + 64<<10) }
 // not to an announced count.
 func cpuBound(n int) time.Duration { return 250*time.Millisecond + time.Duration(n)*time.Microsecond }
 
-const sigTarsMapCount = "tars/decode-iterates-announced-map-count"
+const (
+	sigTarsMapCount      = "tars/decode-iterates-announced-map-count"
+	sigDubboHessianAlloc = "dubbo/allocates-beyond-arrived-bytes:hessian2-generic-decode-in-getServiceAwareMeta"
+)
 
 type failure struct{ sig, msg string }
 
@@ -236,7 +248,7 @@ func decodeOnce(c *decodeCase, input []byte) (res result) {
 			res.fail = &failure{sigp + "decode-does-not-terminate", fmt.Sprintf("Decode call %d: %v", res.calls+1, r)}
 		} else {
 			site := codec.PanicSite(st)
-			if c.Proto == "dubbo" && strings.HasPrefix(site, "github.com/apache/dubbo-go-hessian2") && strings.Contains(st, "dubbo.getServiceAwareMeta") {
+			if c.Proto == "dubbo" && strings.Contains(st, "github.com/apache/dubbo-go-hessian2") && strings.Contains(st, "dubbo.getServiceAwareMeta") {
 				// one root cause whatever the place inside the hessian library: the panic is not recovered
 				site = "hessian2-panic-escapes-getServiceAwareMeta"
 			}
@@ -313,6 +325,11 @@ func checkDecode(c *decodeCase, input []byte) result {
 // without the bytes for them: TarsGo iterates the announced count (up to 2^31-1 iterations, a minute
 // of CPU), which would trip the watchdog and end the shard.
 func knownSlowShape(proto string, in []byte, keepSome bool) bool {
+	if proto == "dubbo" && codec.Listed(sigDubboHessianAlloc) {
+		// 2^31-1 announced elements are a 32 GiB request to the allocator (fatal "out of memory" under
+		// the address-space limit of this test process): not run while listed
+		return dubboAnnouncedCount(in) >= 1<<25
+	}
 	if proto != "tars" || !codec.Listed(sigTarsMapCount) {
 		return false
 	}
@@ -603,7 +620,7 @@ func TestPropCorrupt(t *testing.T) {
 				if knownSlowShape(p, in, rapid.IntRange(0, 7).Draw(rt, "keepKnownSlowShape") == 0) {
 					// excluded by construction: the call would spin for minutes and take the shard with it
 					ev.Case(partCorrupt, false, nil, nil, "proto:"+p, "excluded-known-slow-shape")
-					ev.Extra(partCorrupt, "inputs_not_run_because_they_have_the_shape_of_"+sigTarsMapCount, 1)
+					ev.Extra(partCorrupt, "inputs_not_run_because_they_have_the_shape_of_a_listed_finding:"+p, 1)
 					return
 				}
 				res := checkDecode(c, in)
